@@ -19,13 +19,13 @@ def build(tier):
             ex = dict(CUT=3 + (pi % (len(pat) + 2))) if pi % 3 == 0 else None
             qs.append(ldpc_cycle("C07", cfg, pat, (1, 8, 13)[pi % 3], api, 1, (3, 4, 1)[pi % 3], EN, cb=(0, 3)[pi % 2], extra=ex, expect=False))
     # RS at the limits of GF(2^4): n = 15, ESI 0 and n-1 in play
-    lim = [(RS2M, 4, 1, 14), (RS2M, 4, 7, 8), (RS2M, 4, 14, 1)] if tier == "quick" else \
+    lim = [(RS2M, 4, 1, 14), (RS2M, 4, 4, 11)] if tier == "quick" else \
           [(RS2M, 4, 1, 14), (RS2M, 4, 7, 8), (RS2M, 4, 14, 1), (RS2M, 4, 2, 13), (RS2M, 4, 13, 2), (RS2M, 8, 1, 9), (RS2M, 8, 8, 2)]
     for codec, m, k, r in lim:
         n = k + r
         pats = [list(range(n - k, n)), [0] + list(range(n - k + 1, n)), list(range(k - 1)) + [n - 1], list(range(n))]
         for pi, pat in enumerate(pats):
-            qs.append(rs_cycle("C07", codec, k, r, (1, 17, 5, 16)[pi % 4], m, pat, pi % 2, 1, (0, 4)[pi % 2], EN, data="one", timeout=1500,
+            qs.append(rs_cycle("C07", codec, k, r, (1, 17, 5, 16)[pi % 4], m, pat, pi % 2, 1, (0, 4)[pi % 2], EN, data="one", timeout=1500 if tier == "quick" else 5000,
                                extra=(dict(CUT=4 + len(pat) // 2) if pi == 3 else None)))
     small = [(RS2M, 4, 2, 2), (RS2M, 8, 2, 2), (RS28, 8, 2, 2)] if tier == "quick" else [(RS2M, 4, 2, 2), (RS2M, 4, 3, 3), (RS2M, 8, 2, 2), (RS2M, 8, 3, 2), (RS28, 8, 2, 2), (RS28, 8, 3, 2)]
     for codec, m, k, r in small:
@@ -37,7 +37,7 @@ def build(tier):
     meta = dict(
         units=["all 23 translation units of src/ except lib_advanced/ (per codec: the API dispatcher, the codec, the decoders, the matrix and symbol utilities)"],
         functions_encoded=["the whole public API of of_openfec_api.h on the three codecs"],
-        bounds="every query of this family runs the real code under CBMC's pointer-dereference (NULL, freed, dead, out-of-object), array-bounds, pointer-primitive and free()-precondition checks with application tables of exactly n (k) entries and symbol buffers of exactly len bytes as separate heap objects; additionally asserted after the cycle: every received buffer and every encoder source buffer equals its saved copy. LDPC %s all received sets with duplicates and early release; RS GF(2^4) at n = 15 (k in {1,7,14}) with ESI 0 and n-1 in the received set; small RS codes of all three codecs with lengths {1,15,16,33}. The same memory checks run inside every query of C01-C06, C08-C12, C15" % (cfgs,),
+        bounds="every query of this family runs the real code under CBMC's pointer-dereference (NULL, freed, dead, out-of-object), array-bounds, pointer-primitive and free()-precondition checks with application tables of exactly n (k) entries and symbol buffers of exactly len bytes as separate heap objects; additionally asserted after the cycle: every received buffer and every encoder source buffer equals its saved copy. LDPC %s all received sets with duplicates and early release; RS GF(2^4) at n = 15 (quick: k in {1,4}; thorough: k in {1,2,7,13,14}) with ESI 0 and n-1 in the received set; small RS codes of all three codecs with lengths {1,15,16,33}. The same memory checks run inside every query of C01-C06, C08-C12, C15" % (cfgs,),
         outside_bounds="LDPC at its advertised limits (k, n = 50000); RS GF(2^8) at n = 255; hardware alignment (CBMC memory is byte-granular); histories other than the cycle variants listed",
         stubs=[RS_STUB, RS28_TABLES], assumptions=STD_ASSUMPTIONS, exhaustive=False)
     return qs, meta
